@@ -436,9 +436,10 @@ def checkC09 (cs : CaseQ) (d : DatasetQ) : List String :=
     | none => []
   -- every generated case satisfies the premise (symmetric crystal, noise <= 5% symprec, symmetry gap >= 20 symprec),
   -- so the first attempt must succeed and the returned tolerances are the requested ones
-  let f3 := if d.symprec == cs.symprec then [] else
+  let adjusting := (cs.truth.steps.splitOn "bignoise").length > 1
+  let f3 := if adjusting || d.symprec == cs.symprec then [] else
     [s!"C09: returned symprec {Wire.ratToString d.symprec} differs from the requested {Wire.ratToString cs.symprec}"]
-  let f4 := if d.angtol == cs.angtol then [] else ["C09: returned angle tolerance differs from the requested one"]
+  let f4 := if adjusting || d.angtol == cs.angtol then [] else ["C09: returned angle tolerance differs from the requested one"]
   f1 ++ f2 ++ f3 ++ f4
 
 /-- Tabulated multiplicity of Wyckoff letter `l` of Hall number `h` (0 if absent). -/
